@@ -374,6 +374,8 @@ class ProgGen:
         self.flow, self.collide = flow, collide
         self.taint = set()
         self.noflow = 0
+        self.pending = None
+        self.readonly = []
         self.forbid = []
         self.main_bound = None
         self.loop_bound = []
@@ -382,6 +384,8 @@ class ProgGen:
         # inside a loop (while / for / the main loop) only names that exist before it are written: a name first bound
         # inside a loop body becomes a C++ local of that body, re-initialised on every pass (variable scoping is
         # C01's business, not constant folding)
+        if x in self.readonly:
+            return False          # a for-loop variable: assigning it in the body changes the C++ loop counter (C01's business)
         if self.main_bound is not None and x not in self.main_bound:
             return False
         if any(x not in b for b in self.loop_bound):
@@ -470,6 +474,9 @@ class ProgGen:
         if r < 0.8:
             return f"{rng.choice(ks)} + {rng.choice(STRS)!r}"
         ki = self.known(env, INT_N)
+        if self.flow or self.collide:
+            # a binder (for-loop variable) or a run-time int: never a constant inside the string
+            ki = ki + [x for x in self.bound(env, INT_N + LOOPV) if env[x][0] == "M"] * 2
         return f"f\"n{{{rng.choice(ki)}}}\"" if ki else repr(rng.choice(STRS))
 
     def evalk(self, env, src):
@@ -618,20 +625,37 @@ class ProgGen:
                         self.promote(env, a[1])
                         return ("while", a[0])
                     lv = LOOPV[depth]
-                    if self.collide and rng.random() < 0.4 and self.bound(env, INT_N):
-                        lv = rng.choice(self.bound(env, INT_N))     # a binder named like a tracked constant
+                    pend = None
+                    cl = [x for x in self.bound(env, INT_N) if self.writable(env, x) and x not in self.taint]
+                    if (self.collide or (self.flow and not self.noflow)) and rng.random() < 0.45 and cl:
+                        big = [x for x in cl if env[x][0] == "K" and env[x][1] >= 10]
+                        lv = rng.choice(big or cl)     # a binder named like a tracked constant
+                        v = rng.randint(10, 31)
+                        pend = ("assign", lv, str(v))
 
                     def mk():
                         c = self.child(env)
                         c[lv] = ("M",)
                         return c
                     self.loop_bound.append(set(env))
+                    self.readonly.append(lv)
                     try:
                         a = self.loop_body(env, mk, depth, rng.randint(1, 3))
                     finally:
                         self.loop_bound.pop()
+                        self.readonly.pop()
                     a[1].pop(lv, None)
                     self.promote(env, a[1])
+                    if pend:
+                        # the probe: a string built from the binder, and its length (a run-time value: the binder is
+                        # not the module constant of the same name)
+                        ms = [x for x in self.bound(env, STR_N) if env[x][0] == "M" and self.writable(env, x)]
+                        if ms:
+                            sx = rng.choice(ms)
+                            a[0].extend([("assign", sx, f"f\"n{{{lv}}}\""), ("len", sx)])
+                        self.pending = pend
+                        env[lv] = ("K", int(pend[2]))
+                        self.taint.discard(lv)
                     return ("for", lv, a[0])
                 finally:
                     self.forbid.pop()
@@ -720,6 +744,9 @@ class ProgGen:
             s = self.stmt(env, depth)
             if s:
                 out.append(s)
+                if self.pending:
+                    out.append(self.pending)
+                    self.pending = None
                 if s[0] in ("if", "while", "for") and self.rng.random() < 0.7:
                     # look at what the block wrote: that is where a stale environment shows
                     ws = sorted(x for x in self.written(s) if x in env and x in STR_N + LIST_N and x not in self.taint)
@@ -797,7 +824,7 @@ class ProgGen:
                 if unknown:
                     pre.append(("assign", x, f"{m} + {rng.randint(0, 3)}")); env[x] = ("M",)
                 else:
-                    v = rng.randint(0, 9); pre.append(("assign", x, str(v))); env[x] = ("K", v)
+                    v = rng.choice([rng.randint(0, 9), rng.randint(0, 9), rng.randint(10, 31)]); pre.append(("assign", x, str(v))); env[x] = ("K", v)
             elif x in STR_N:
                 if unknown:
                     pre.append(("assign", x, f"str({m})")); env[x] = ("M",)
